@@ -58,6 +58,13 @@ func init() {
 			cfg.Container.VolumeMounts = append(cfg.Container.VolumeMounts, corev1.VolumeMount{Name: nm, MountPath: "/custom"})
 			mtoks = append(mtoks, hx(nm))
 		}
+		// a statically provisioned volume: katib-config may carry a PersistentVolume spec for the algorithm
+		pvConfigured := rng.Intn(3) == 0
+		if pvConfigured {
+			cfg.PersistentVolumeSpec = corev1.PersistentVolumeSpec{StorageClassName: "katib-suggestion", AccessModes: []corev1.PersistentVolumeAccessMode{corev1.ReadWriteOnce},
+				PersistentVolumeSource: corev1.PersistentVolumeSource{HostPath: &corev1.HostPathVolumeSource{Path: "/tmp/katib"}}}
+			cfg.PersistentVolumeLabels = map[string]string{"type": "local"}
+		}
 		kc := configv1beta1.KatibConfig{}
 		kc.RuntimeConfig.SuggestionConfigs = []configv1beta1.SuggestionConfig{cfg}
 		kc.RuntimeConfig.EarlyStoppingConfigs = []configv1beta1.EarlyStoppingConfig{{AlgorithmName: "medianstop", Image: "img/medianstop"}}
@@ -98,6 +105,9 @@ func init() {
 		op := fmt.Sprintf("C17 %s %s %d %s %s %s %s %s %d %s %s %s %d %s", hx(s.Name), hx(s.Namespace), len(ltoks), strings.Join(ltoks, " "), hx("random"), resumeTok(s.Spec.ResumePolicy), esTok,
 			hx(cfg.Container.Name), len(ptoks), strings.Join(ptoks, " "), hx(cfg.ServiceAccountName), hx(cfg.VolumeMountPath), len(mtoks), strings.Join(mtoks, " "))
 		tags := []string{"resume=" + resumeTok(s.Spec.ResumePolicy)}
+		if pvConfigured {
+			tags = append(tags, "pv-in-katib-config")
+		}
 		if esTok != "none" && esTok != "-" {
 			tags = append(tags, "early-stopping")
 		}
@@ -130,13 +140,17 @@ func init() {
 			ep := fmt.Sprintf("ep=%s esep=%s", epSplit(util.GetAlgorithmEndpoint(s)), epSplit(util.GetEarlyStoppingEndpoint(s)))
 			pvcN := util.GetSuggestionPersistentVolumeClaimName(s)
 			if s.Spec.ResumePolicy == experimentsv1beta1.FromVolume {
-				pvc, _, err := comp.DesiredVolume(s)
+				pvc, pv, err := comp.DesiredVolume(s)
 				if err != nil {
 					impl = "err volume"
 					return
 				}
 				pvcN = pvc.Name
 				owner = owner && ownedBy(pvc.OwnerReferences, s) && pvc.Namespace == s.Namespace
+				// the cluster-scoped volume exists exactly when configured, under the derived name and with the configured labels
+				if (pv != nil) != pvConfigured || (pv != nil && (pv.Name != util.GetSuggestionPersistentVolumeName(s) || pv.Labels["type"] != "local")) {
+					owner = false
+				}
 			}
 			sa, role, rb, err := comp.DesiredRBAC(s)
 			if err != nil {
